@@ -45,3 +45,57 @@ Proof.
   - assert (length wit_trace = 27%nat) as -> by (vm_compute; reflexivity). lia.
   - rewrite wit_startup_fails in Hs. discriminate.
 Qed.
+
+(* ------------------------------------------------------------------ C01 / C02 *)
+
+(** C01 as given: at every crash point the restart succeeds and the recovered files hold every committed
+    fixed value and every record of every committed variable command *)
+Definition C01_full_stmt : Prop :=
+  forall (clen : list record -> Z), (forall x, 0 < clen x) ->
+  forall owner2 owner tgid0 sched tr k,
+    owner <> 0 -> 0 < tgid0 ->
+    run clen 0%N owner tgid0 sched = Ok tr -> wf_sched clen owner tgid0 sched = true ->
+    (k <= length tr)%nat ->
+    snd (recover clen 1%N owner2 (crash_img tr k)) = StartOk
+    /\ (forall f off, fx_get (recovered_files clen owner2 tr k) f off = lastw (cmds_of (committed tr k)) f off)
+    /\ (forall c r, In c (cmds_of (committed tr k)) -> c_kind c = KVar -> In r (c_data c) ->
+                    In r (content (recovered_files clen owner2 tr k) (c_fid c) (c_off c))).
+
+Lemma C01_full_refuted : ~ C01_full_stmt.
+Proof.
+  intros H.
+  destruct (H clen0 clen0_pos 2222 1111 1000 wit_sched wit_trace 25%nat) as [Hs _];
+    try (exact wit_run || exact wit_wf || lia).
+  - assert (length wit_trace = 27%nat) as -> by (vm_compute; reflexivity). lia.
+  - rewrite wit_startup_fails in Hs. discriminate.
+Qed.
+
+(** C02 as given: after recovery every variable interval holds exactly the committed records *)
+Definition C02_full_stmt : Prop :=
+  forall (clen : list record -> Z), (forall x, 0 < clen x) ->
+  forall owner2 owner tgid0 sched tr k,
+    owner <> 0 -> 0 < tgid0 ->
+    run clen 0%N owner tgid0 sched = Ok tr -> wf_sched clen owner tgid0 sched = true ->
+    (k <= length tr)%nat -> guard_window tr k = true ->
+    forall f slot, content (recovered_files clen owner2 tr k) f slot = ct_after (cmds_of (committed tr k)) [] f slot.
+
+(** crash after everything is written and acknowledged, before any checkpoint: replay appends both
+    requests' records a second time *)
+Lemma wit_duplicates :
+  content (recovered_files clen0 2222 wit_trace 27) 0%N 37168 = [rec_b; rec_b; rec_a; rec_a]
+  /\ ct_after (cmds_of (committed wit_trace 27)) [] 0%N 37168 = [rec_b; rec_a].
+Proof. split; vm_compute; reflexivity. Qed.
+
+Lemma C02_full_refuted : ~ C02_full_stmt.
+Proof.
+  intros H.
+  assert (Hc := H clen0 clen0_pos 2222 1111 1000 wit_sched wit_trace 27%nat).
+  assert (Hl : length wit_trace = 27%nat) by (vm_compute; reflexivity).
+  specialize (Hc ltac:(lia) ltac:(lia) wit_run wit_wf ltac:(lia) ltac:(vm_compute; reflexivity) 0%N 37168).
+  destruct wit_duplicates as [H1 H2]. rewrite H1, H2 in Hc. discriminate.
+Qed.
+
+(** the daily-jan1 class in the model: a fixed record whose index field is 0 is stored but is a hole for
+    the reader *)
+Lemma index0_is_a_hole f off p : file_rows f (PF [(off, (0, p))]) = QRows [].
+Proof. cbn. rewrite Z.eqb_refl. reflexivity. Qed.
